@@ -25,6 +25,8 @@ def base_filters(tier):
         {"authors": [A], "kinds": [1]}, {"authors": [A, B], "kinds": [1, 2]}, {"kinds": [1], "#e": ["a", "ab"]},
         {"authors": [A], "#e": ["a"]}, {"kinds": [1], "since": 20}, {"kinds": [1], "until": 20}, {"authors": [A, B], "since": 20},
         {"#e": ["a"], "#p": [B]}, {"kinds": [1, 2], "authors": [A], "#e": ["a", "ab"]},
+        # the serving index yields a superset that the residual matcher narrows down (ids + window, two tag names)
+        {"ids": ids, "until": 20}, {"ids": ids, "since": 25}, {"#e": ["a", "ab"], "#t": ["it's"]}, {"#e": ["a"], "#p": [A, B]},
     ]
     if tier == "thorough":
         out += [{"kinds": [1], "authors": [B], "since": 20}, {"#t": ["it's", "é"]}, {"#p": [A, B]}, {"kinds": [255, 256, 1], "until": Q.T9 + 1},
@@ -51,6 +53,14 @@ def filters_for(tier):
     for i, j in pairs:
         for l1, l2 in itertools.product([None, 1, 2, 3, 10], repeat=2):
             a, b = dict(base[i]), dict(base[j])
+            if l1 is not None:
+                a["limit"] = l1
+            if l2 is not None:
+                b["limit"] = l2
+            out.append([a, b])
+    for i in (0, 3, 6, 11):
+        for l1, l2 in ((1, 10), (10, 1), (1, 2), (2, None), (0, 3)):
+            a, b = dict(base[i]), dict(base[i])
             if l1 is not None:
                 a["limit"] = l1
             if l2 is not None:
@@ -98,6 +108,12 @@ def judge(store_events, filters, evs, eose, closed):
         only_this = lambda e: sum(1 for g in stripped if Q.loose_matches(g, e)) == 1  # noqa: E731
         attributable = [i for i in sent if i in by_id and Q.loose_matches(f, by_id[i]) and only_this(by_id[i])]
         n_allowed = eff(filters[fi])
+        # every filter gets its own share: at least min(limit, number of strict matches) of its matches are sent (whichever filter
+        # of the REQ they are sent for)
+        sent_matching = len({i for i in sent if i in by_id and Q.loose_matches(f, by_id[i])})
+        if sent_matching < min(n_allowed, len(strict)):
+            v.append(("limit-does-not-starve-a-filter", "f%d:%d<%d" % (fi, sent_matching, min(n_allowed, len(strict))),
+                      "filter %d has %d strict matches and limit %d but only %d of its matches were sent" % (fi, len(strict), n_allowed, sent_matching)))
         if len(attributable) > n_allowed:
             v.append(("at-most-limit", "f%d:%d>%d" % (fi, len(attributable), n_allowed),
                       "%d events attributable only to filter %d were sent, limit allows %d" % (len(attributable), fi, n_allowed)))
